@@ -74,6 +74,8 @@ class Ctx:
         self.keep = keep
         self.cfg = None
         self.unit_cache = {}
+        import threading
+        self._cfg_lock = threading.Lock()
         self.t0 = time.time()
         self.kf = load_known_findings()
 
@@ -124,10 +126,14 @@ class Ctx:
     def cfg_dir(self, patch):
         if not patch:
             return self.cfg
+        with self._cfg_lock:
+            return self._cfg_dir_locked(patch)
+
+    def _cfg_dir_locked(self, patch):
         tag = hashlib.sha256(json.dumps(patch, sort_keys=True).encode()).hexdigest()[:8]
         d = os.path.join(self.scratch, "cfg-" + tag)
-        if not os.path.exists(d):
-            os.makedirs(os.path.join(d, "include", "coap3"))
+        if not os.path.exists(os.path.join(d, "include", "coap3", "coap_defines.h")):
+            os.makedirs(os.path.join(d, "include", "coap3"), exist_ok=True)
             shutil.copy(os.path.join(self.cfg, "coap_config.h"), d)
             txt = open(os.path.join(self.cfg, "include", "coap3", "coap_defines.h")).read()
             for k, v in patch.items():
@@ -268,6 +274,7 @@ def cbmc_cmd(job, gb, extra=()):
     uws.setdefault("coap_flsll.0", 66)
     uws.setdefault("__CPROVER_file_local_coap_option_c_coap_option_filter_op.0", 4)
     uws.setdefault("__CPROVER_file_local_coap_option_c_coap_option_filter_op.1", 8)
+    uws.setdefault("__ctype_b_loc.0", 258)          # env.c: C-locale ctype table, 256 entries
     uws.setdefault("coap_realloc_type.0", 25)
     uws.setdefault("coap_realloc_type.1", 1500)   # env.c byte-copy loop (concrete bound)
     cmd += ["--unwindset", ",".join("%s:%d" % kv for kv in uws.items())]
